@@ -201,7 +201,38 @@ pub fn chains(r: &mut Rec, maxlen: usize, all: bool) {
     }
 }
 
+/// stepping by one through zero and through the digit boundaries (num_integer::Integer::inc / dec, the += 1 / -= 1
+/// of the library): both directions, both types, by the trait path
+fn steps(r: &mut Rec) {
+    use num_integer::Integer;
+    let mags: Vec<Vec<u64>> = vec![vec![], vec![1], vec![2], vec![u64::MAX], vec![0, 1], vec![1, 1], vec![u64::MAX, u64::MAX], vec![0, 0, 1], vec![u64::MAX - 1, u64::MAX, u64::MAX]];
+    for (k, m) in mags.iter().enumerate() {
+        if !r.case(&format!("steps {}", k)) {
+            continue;
+        }
+        load_u(r, 0, m);
+        r.clone_u(0, 2);
+        r.u_mut("inc", "integer_trait", "", 2, |d| Integer::inc(d));
+        r.u_mut("inc", "integer_trait", "", 2, |d| Integer::inc(d));
+        r.u_mut("dec", "integer_trait", "", 2, |d| Integer::dec(d));
+        r.u_mut("dec", "integer_trait", "", 2, |d| Integer::dec(d));
+        r.u_mut("dec", "integer_trait", "", 2, |d| Integer::dec(d));
+        for sign in [Sign::Plus, Sign::Minus] {
+            load_i_from_u(r, 0, sign, 0);
+            r.clone_i(0, 2);
+            for _ in 0..3 {
+                r.i_mut("inc", "integer_trait", "", 2, |d| Integer::inc(d));
+            }
+            r.clone_i(0, 2);
+            for _ in 0..3 {
+                r.i_mut("dec", "integer_trait", "", 2, |d| Integer::dec(d));
+            }
+        }
+    }
+}
+
 pub fn run(r: &mut Rec) {
+    steps(r);
     let maxlen: usize = if r.thorough { 23 } else { 17 };
     // per-(la, lb) how many patterned pairs
     let per_pair = if r.thorough { 6 } else { 1 };
